@@ -1,8 +1,9 @@
 ---- MODULE MC_KdeExact ----
 EXTENDS KdeExact, Json
-CONSTANTS NLev, CSet, KVals, Mode       \* Mode = "values": small samples with the pdf/cdf tables; "moments": light-tailed histograms with integer mean
+CONSTANTS NLev, CSet, KVals, Mode       \* Mode = "values" / "gap": small samples with the pdf/cdf tables; "moments": light-tailed histograms with integer mean
 MCKa == {-1, 0, 1}
 MCKb == {3}
+MCKg == {-1, 0}
 MCKm == {-1, 0, 1}
 MCKd == {0, 1, 2}
 MCCa == 0..2
@@ -11,7 +12,10 @@ MCCd == {0, 1}
 VARIABLES hs, k, out
 \* "moments": the two end levels hold ONE sample each, so that the estimated density carries negligible probability outside the
 \* estimator's own integration range (the property's proviso)
-Init == /\ \E c \in [1..NLev -> CSet] :
+GapCnt(e) == [i \in 1..NLev |-> IF i <= 2 THEN e[i] ELSE IF i >= NLev - 1 THEN e[i - NLev + 4] ELSE 0]   \* two clusters, empty stretch between
+Init == /\ IF Mode = "gap"
+           THEN \E e \in [1..4 -> CSet] : hs = [lo |-> 0, cnt |-> GapCnt(e)] /\ e[1] > 0 /\ e[4] > 0 /\ NTot(hs) >= 3
+           ELSE \E c \in [1..NLev -> CSet] :
                /\ hs = [lo |-> 0, cnt |-> IF Mode = "moments" THEN [i \in 1..NLev |-> IF i = 1 \/ i = NLev THEN 1 ELSE c[i]] ELSE c]
                /\ Cardinality({i \in 1..NLev : hs.cnt[i] > 0}) >= 2 /\ hs.cnt[1] > 0 /\ hs.cnt[NLev] > 0 /\ NTot(hs) >= 3
                /\ (Mode = "moments" => (MeanInt(hs) /\ c[1] = 100 /\ c[NLev] = 100))
@@ -23,7 +27,7 @@ Reach == IF k = -1 THEN 5 ELSE 9 * (CASE k = 0 -> 1 [] k = 1 -> 2 [] k = 2 -> 4 
 Grid == {<<j, 2>> : j \in (2 * (0 - Reach))..(2 * (NLev - 1 + Reach))}
 GridSeq == [j \in 1..(2 * (NLev - 1 + 2 * Reach) + 1) |-> <<j - 1 - 2 * Reach, 2>>]
 Next == /\ out = 0 /\ out' = 1 /\ UNCHANGED <<hs, k>>
-        /\ IF Mode = "values"
+        /\ IF Mode \in {"values", "gap"}
            THEN PrintT(ToJson([hs |-> hs, k |-> k, peak |-> KernelPeak(hs, k), xs |-> GridSeq,
                                pdf |-> [j \in 1..Len(GridSeq) |-> Pdf(hs, k, GridSeq[j])], cdf |-> [j \in 1..Len(GridSeq) |-> Cdf(hs, k, GridSeq[j])]]))
            ELSE IF Mode = "distinct" THEN PrintT(ToJson([hs |-> hs, k |-> k]))
